@@ -27,7 +27,15 @@ MANIFEST = dict(
           "z3-real payload x (partner payload y), original-first and restored-first (memoised unit rules live within the path, "
           "reference outcome from a fresh world); per path z3 proves for ALL real x, y that the restored object gives the same outcome "
           "as the original: same exception class, or equal value terms, equal unit (expression, dimensions, scale, offset) and equal "
-          "result type. Enumerated, not solved: subjects, routes, follow-up operations, partner units, order. NOT a solver statement: "
+          "result type. Two further enumerated axes: (a) ARGUMENT FORMS of the text-file round trip - 36 forms of savetxt/loadtxt (comment "
+          "lines before and after the data: header= / footer= of one word, as many words as columns, unit names, several lines, a second "
+          "'Units' block; delimiter; comment character; fmt; 1-3 columns, 1-3 rows, single array vs list, a bare ndarray column, usecols), every "
+          "column checked, the subject's restored unit followed up symbolically; (b) RESTORATION HISTORIES - two- and three-step sequences "
+          "inside ONE path in which the subject is restored before / after / in the same container as companions from registries with an "
+          "EQUAL table and another unit system (mks / cgs / imperial) or with the same symbol names and other scales, incl. a second "
+          "restoration of the same original, use / release / registry edits of an earlier restored object; every restored object is "
+          "followed up against its own original. Enumerated, not solved: subjects, routes, argument forms, histories, follow-up "
+          "operations, partner units, order. NOT a solver statement: "
           "that the stored numbers survive pickle/savetxt (concrete byte-wise comparison on a fixed set of arrays, performed and "
           "reported as ground checks) and that registry tables survive (concrete row-by-row comparison). Copies that can carry terms "
           "(copy.copy, copy.deepcopy, q.copy() of a whole quantity) are additionally run with the symbolic payload inside."),
@@ -44,28 +52,56 @@ EXPLANATION = (
     "unit-rule code on quantities whose payloads are z3 reals, once on the original and once on the restored unit. Obligation per "
     "path: pc & not(outcome_restored == outcome_original) is unsat. Order axis: 'OR' = original first then restored (lru caches of "
     "the unit rules are live in between); 'RO' = reference outcome of the original in a first world, caches cleared, second world, "
-    "restored first, then the original again: restored == reference and original-after-restored == reference."
+    "restored first, then the original again: restored == reference and original-after-restored == reference. "
+    "Text-file argument forms (text:file[...]): savetxt(arrays, header/footer/delimiter/comments/fmt) -> loadtxt(delimiter/comments/usecols) "
+    "of 1-3 columns in different units; the numbers and units of the neighbour columns are compared concretely (persist/other-columns), "
+    "the subject's restored unit goes through a compact battery (unit-system conversion, guards, arithmetic and conversion with a "
+    "partner, description). Restoration histories (history:<cast>/<route>/<history>): a cast S, C, D (the same unit string in registries with "
+    "equal tables and different unit systems, or equal names and different scales) and T (S's original once more) is restored step by "
+    "step or in one list / dict / tuple / nested container within one path - nothing is cleared between the steps and every restored "
+    "object stays referenced until a `drop` step; `use` runs conversions on an earlier restored object, `edit` changes the registry of an "
+    "earlier restored object (scale of a symbol x 3, a new symbol); afterwards every restored member whose registry was not edited on "
+    "purpose must give the same outcome as ITS original for all payloads (labels <member>:restored-vs-original/<family>/<aspect>), and its "
+    "registry must still have the original's unit system and rows."
 )
 BOUNDS = {
-    "quick": "34 subjects (table units: degree arcmin rad | K degC delta_degC degF | dB Np | dimensionless percent | C statC T G | m Msun | "
-             "km/s degree/s J/K g/cm**3; custom registries: added xla, prefixed kxlp, offset xto, delta xtd, angle xga, logarithmic xlg, compounds; "
-             "modified xla and modified default pc; unit_system=cgs registry) x 11 routes (pickle 2/5 of quantity, pickle 5 of Unit, deepcopy of "
-             "quantity, deepcopy/copy/q.copy() of the SYMBOLIC quantity itself, Unit.copy(deep), Unit.copy(), str, JSON, savetxt; + for one table subject per kind: 3-column text files read back with usecols=(2,0) and (1,)) x per-kind families "
-             "of follow-ups (trig 3, exp 1, base 4, arith 7, unit 3, thermal equivalence; per partner unit: bin 6, conv 4) x order {original first, "
-             "restored first with fresh-world reference} (object-graph routes both orders, by-reference/text routes original-first only); scalar and "
-             "2-element payloads; + 361 registry-table cases (one per subject x route); + 150 concrete value round-trip cases",
-    "thorough": "70 subjects (adds arcsec mas lat lon sr R delta_degF mK kdegC B A statA V statV ohm statohm esu km erg s g and 9 compounds, more "
-                "units of the modified / cgs registries) x 9 routes for every subject (15 for the 34 subjects of the quick tier), all 27 routes (pickle 2,3,4,5 of Unit / quantity / array, nested "
-                "containers, deepcopy of array / nested, copy.copy, q.copy(), repr) for one subject per (kind, registry) x full families (trig 4, exp 2, "
+    "quick": "17 subjects (table units: degree arcmin | K degC delta_degC | dB | dimensionless | C | m | km/s; custom registries: added xla, prefixed kxlp, "
+             "offset xto, angle xga; modified xla and modified default pc; unit_system=cgs registry) x 9 routes (pickle 2/5 of quantity, pickle 5 of Unit, "
+             "deepcopy/copy of the SYMBOLIC quantity itself, Unit.copy(deep), str, JSON, savetxt; + for one table subject per kind: 3-column text files read "
+             "back with usecols=(2,0) and (1,)) x per-kind families of follow-ups (trig 3, exp 1, base 4, arith 7, unit 3, thermal equivalence; per partner unit: "
+             "bin 6, conv 4) x order {original first, restored first with fresh-world reference} (three object-graph routes both orders, the others original-first); "
+             "scalar and 2-element payloads; TEXT-FILE ARGUMENT FORMS: 22 of the 36 savetxt/loadtxt forms (header= 2 lines / 3 unit-name words / a 'Units' block; "
+             "footer= 1 word / as many words as columns / unit names / 2 lines / a 'Units' block; header+footer; footer with 1 and 2 columns and with usecols; "
+             "delimiter ',' and ' '; comments '%' and '# '; fmt %g and %10.5f; single array not in a list; bare ndarray column; 1 row x 1 and x 3 columns) for one table "
+             "subject of the kinds angle, temp, nodim, compound, 2 forms for the other 6 table subjects, each with a compact battery of 13-15 follow-ups; "
+             "RESTORATION HISTORIES: 4 casts (km in cgs / mks / imperial registries with the unchanged table, both ways round; kxlp in three custom registries "
+             "with equal tables and cgs / mks / imperial; xla in registries with the same names and other scales) x routes {pickle 5 of quantity, deepcopy of "
+             "quantity, pickle 5 of Unit; pickle 2 of quantity for the first cast} x 12 histories (C>S, S>C, [C,S], {C,S}, S>T, C>D>S, [C,D,S], C>use(C)>S, "
+             "C>drop(C)>S, C>edit(C)>S, S>C>edit(C), S>T>edit(T); edits not on the Unit route) x 7 follow-ups per restored member (in_base, in_cgs, "
+             "get_base_equivalent, to(str), to(Unit), + partner, describe), restored-first order for 3 histories on pickle 5; "
+             "+ 260 registry-table cases (one per subject x route / form); + 150 concrete value round-trip cases",
+    "thorough": "57 subjects (adds rad lat mas degF R delta_degF mK kdegC Np B percent statC T G A V ohm Msun erg s, 9 compounds, more "
+                "units of the custom / modified / cgs registries) x 7 routes for every added subject (15 for the 17 subjects of the quick tier), all 32 routes (pickle 2,3,4,5 of Unit / quantity / array, nested "
+                "containers, deepcopy of array / nested, copy.copy, q.copy(), repr, 5 usecols forms) for one subject per (kind, registry) x full families (trig 4, exp 2, "
                 "base 10, arith 20, unit 9, equiv 2; per partner: bin 19, conv 14) x both orders on object-graph routes (by-reference/text routes: both orders for one subject per (kind, registry), else original-first); partner restored as well for "
-                "angle/temperature/logarithmic subjects on 3 routes; + 1222 registry-table cases; + 224 concrete value round-trip cases",
+                "angle/temperature/logarithmic subjects on 3 routes; TEXT-FILE ARGUMENT FORMS: all 36 forms for one table subject per kind (7), 5 comment-line / delimiter forms for "
+                "every other table subject; RESTORATION HISTORIES: the 4 casts x {pickle 2, 5 of quantity, deepcopy of quantity, pickle 5 of Unit} x all 25 histories "
+                "(adds (S,C), [S,C], [S,T], C>S>D, S>C>D, {S,C,D}, [C,S]>D, C>[D,S] nested, S>use(S)>C, C>S>drop(C), C>S>edit(C), [S,C]>edit(C), T>edit(T)>S) and x 7 more routes "
+                "(pickle 3, 4 of quantity, pickle 2, 5 of array, pickle 2 of Unit, deepcopy of array / Unit) x the 12 quick histories, 20 follow-ups per restored member; 6 more casts "
+                "(xla cgs / mks twins, erg vs J, km/s, degC, C / statC, modified pc) x {pickle 5, deepcopy of quantity} x 25 histories x 7 follow-ups; restored-first "
+                "order on those two routes for the histories without registry edits; + 1071 registry-table cases; + 224 concrete value round-trip cases",
 }
 OUTSIDE = ("PARTIAL. Not solver statements: (1) the persistence step itself is concrete - that stored NUMBERS survive pickle / savetxt / copies is a byte-wise "
            "comparison on 8 fixed arrays (float64 incl. inf/nan/denormal/strided/empty, float32, int64) x 10 routes (ground checks; the symbolic battery "
            "then ASSUMES restored payload == stored payload); (2) registry tables are compared row by row concretely; (3) scales and offsets of the "
            "persisted units are concrete (table values, fixed custom values), only the payloads x, y of the follow-up operations are symbols; subjects, "
-           "routes, operations, partners and order are enumerated. Outside altogether: pickle protocols 0 and 1 (sympy refuses them with "
-           "NotImplementedError - checked that the refusal is loud); savetxt/loadtxt of custom-registry units (loadtxt reads names in the default "
+           "routes, operations, partners and order are enumerated; "
+           "(4) text-file argument forms and restoration histories are enumerated lists, not all programs: savetxt/loadtxt forms are the 36 listed ones (comment "
+           "characters of ONE character as loadtxt documents, delimiters that numpy itself reads back, values that every fmt prints exactly, 1-3 columns, 1-3 rows); "
+           "histories are the 25 listed two-/three-step ones over at most 3 registries, restored through the SAME route within a history; histories through JSON "
+           "and by-reference copies and histories longer than three steps are outside; what a registry edit does to the EDITED object itself is C12/C13. "
+           "Outside altogether: pickle protocols 0 and 1 (sympy refuses them with "
+           "NotImplementedError - checked that the refusal is loud); loadtxt(usecols=<bare int>) (documented as a sequence; refused with TypeError); savetxt/loadtxt of custom-registry units (loadtxt reads names in the default "
            "registry); HDF5 (h5py absent), dask arrays; the `name` attribute of arrays; raw hash values of units of different registries (they depend on "
            "the repr of the registry table by design); follow-up programs longer than one operation per cache epoch; trig follow-ups are decided for "
            "payloads in [0.5, 3] (sin/cos/tan are uninterpreted functions - on that interval every model of a linear-argument discrepancy replays); "
@@ -76,7 +112,7 @@ ASSUMPTIONS = ["C11: the payload of the restored quantity is a separate symbol c
 CONFORM = {"quick": 40, "thorough": 120}
 BATCH_REPLAY = True  # every case clears the lru caches itself and builds its own registries: replays are independent within one interpreter
 
-NAMES = ["xla", "xlp", "xto", "xga", "xlg", "xtd"]
+NAMES = ["xla", "xlp", "xto", "xga", "xlg", "xtd", "xhn"]
 
 # ---------------------------------------------------------------------------------------------------------------- worlds
 
@@ -85,10 +121,10 @@ def _world_default(ctx):
     return None
 
 
-def _world_add(ctx):
+def _world_add(ctx, unit_system=None):
     """custom registry: added plain, prefixable, offset-temperature, delta-temperature, angle and logarithmic symbols"""
     UR, D = ctx.mods["UR"], ctx.mods["unyt"].dimensions
-    reg = UR.UnitRegistry()
+    reg = UR.UnitRegistry() if unit_system is None else UR.UnitRegistry(unit_system=unit_system)
     reg.add("xla", 2.5, D.length)
     reg.add("xlp", 0.25, D.length, prefixable=True)
     reg.add("xto", 0.5, D.temperature, offset=12.5)
@@ -106,15 +142,24 @@ def _world_mod(ctx):
     return reg
 
 
-def _world_cgs(ctx):
+def _world_cgs(ctx, unit_system="cgs"):
     """custom registry whose unit system is cgs"""
     UR, D = ctx.mods["UR"], ctx.mods["unyt"].dimensions
-    reg = UR.UnitRegistry(unit_system="cgs")
+    reg = UR.UnitRegistry(unit_system=unit_system) if unit_system else UR.UnitRegistry()
     reg.add("xla", 2.5, D.length)
     return reg
 
 
-WORLDS = {"default": _world_default, "regadd": _world_add, "regmod": _world_mod, "regcgs": _world_cgs}
+def _world_bare(unit_system):
+    """custom registry with the unchanged default table and another unit system (table EQUAL to the default registry's)"""
+    return lambda ctx: ctx.mods["UR"].UnitRegistry(unit_system=unit_system)
+
+
+WORLDS = {"default": _world_default, "regadd": _world_add, "regmod": _world_mod, "regcgs": _world_cgs,
+          # twins for the restoration histories: equal tables, different unit systems
+          "cgs0": _world_bare("cgs"), "imp0": _world_bare("imperial"), "mks0": _world_bare("mks"),
+          "regaddcgs": lambda ctx: _world_add(ctx, "cgs"), "regaddimp": lambda ctx: _world_add(ctx, "imperial"),
+          "regxla": lambda ctx: _world_cgs(ctx, None)}
 
 
 class Subject:
@@ -221,10 +266,132 @@ def r_savetxt_cols(usecols, pos, delimiter=",", header=False):
     return f
 
 
+class FileForm:
+    """one argument form of the savetxt -> loadtxt round trip: which columns, how many rows, the keyword arguments of savetxt
+    (header / footer / delimiter / comments / fmt) and of loadtxt (delimiter / comments / usecols), how `arrays` is handed over"""
+
+    def __init__(self, ncols=3, pos=0, nrows=3, save=None, load=None, single=False, bare=None):
+        self.ncols, self.pos, self.nrows = ncols, pos, nrows
+        self.save, self.load = dict(save or {}), dict(load or {})
+        self.single = single      # savetxt(fname, array) instead of savetxt(fname, [array])
+        self.bare = bare          # index of a column handed over as a plain ndarray (documented to come back dimensionless)
+
+
+# the columns next to the subject's: units whose names are NOT the words used in the footers/headers below
+_FILE_OTHERS = [("km", [4.0, 5.0, 6.0]), ("s", [7.0, 8.0, 9.0]), ("g", [0.5, 0.25, 0.125])]
+_FILE_MINE = [1.0, 2.0, 3.0]
+
+
+def r_textfile(form):
+    """savetxt(arrays, **form.save) then loadtxt(**form.load): EVERY column must come back with its own numbers and its own unit.
+    The subject's restored unit is returned for the symbolic follow-ups (the verdict on the subject's column is theirs); damaged
+    neighbour columns are noted in ctx._c11_side (obligation persist/other-columns); a result of the wrong shape or the subject's
+    numbers changed is a failed round trip (AssertionError -> persist/completes)"""
+    def f(ctx, u, reg):
+        unyt = ctx.mods["unyt"]
+        n = form.nrows
+        cols, want = [], []
+        for k in range(form.ncols):
+            un, vals = (u, _FILE_MINE) if k == form.pos else _FILE_OTHERS[k]
+            vals = np.array(vals[:n])
+            if form.bare == k:
+                cols.append(vals)
+                want.append((vals, "dimensionless"))
+            else:
+                a = unyt.unyt_array(vals, un)
+                cols.append(a)
+                want.append((vals, str(a.units.expr)))
+        fd, fn = tempfile.mkstemp(suffix=".txt", prefix="c11_")
+        os.close(fd)
+        try:
+            unyt.savetxt(fn, cols[0] if form.single else cols, **form.save)
+            ret = unyt.loadtxt(fn, **form.load)
+        finally:
+            os.unlink(fn)
+        usecols = form.load.get("usecols")
+        order = list(range(form.ncols)) if usecols is None else (list(usecols) if isinstance(usecols, (tuple, list)) else [usecols])
+        got = list(ret) if isinstance(ret, tuple) else [ret]
+        if len(got) != len(order):
+            raise AssertionError(f"{len(order)} columns requested, {len(got)} arrays returned: {ret!r}"[:300])
+        mine, side = None, []
+        for k, back in zip(order, got):
+            vals, ustr = want[k]
+            if not hasattr(back, "units"):
+                raise AssertionError(f"column {k} came back without units: {back!r}"[:300])
+            # a one-row one-column file comes back 0-d: same number, the dimensionality of a single number is not compared
+            same_numbers = np.array_equal(np.atleast_1d(np.asarray(back.d)), vals)
+            if k == form.pos:
+                if not same_numbers:
+                    raise AssertionError(f"column {k}: numbers {np.asarray(back.d)!r} are not the stored {vals!r}")
+                mine = back.units
+            else:
+                if not same_numbers:
+                    side.append(f"column {k}: numbers {np.asarray(back.d)!r} are not the stored {vals!r}")
+                if str(back.units.expr) != ustr:
+                    side.append(f"column {k}: unit {ustr} came back as {back.units.expr}")
+        if mine is None:
+            raise AssertionError("subject column not read")
+        ctx._c11_side = side
+        return mine
+    return f
+
+
+_H1, _H2 = "halo catalogue", "two lines\nof free text"
+FILE_FORMS = {
+    # ---- comment lines BEFORE the data (header=) ...
+    "header=1line": FileForm(save=dict(header=_H1)),
+    "header=2lines": FileForm(pos=1, save=dict(header=_H2)),
+    "header=blank-line": FileForm(save=dict(header="first\n\nthird\n")),
+    "header=3words": FileForm(save=dict(header="pc yr kg")),                       # as many words as columns, all unit names
+    "header=Units-block": FileForm(save=dict(header=" Units\n pc\tyr\tkg")),          # looks like a unit header of its own
+    "header=numbers": FileForm(save=dict(header="1.0 2.0 3.0")),
+    # ---- ... and AFTER the data (footer=)
+    "footer=1word": FileForm(save=dict(footer="checked")),
+    "footer=3words": FileForm(pos=2, save=dict(footer="3 rows written")),           # as many words as columns
+    "footer=unit-names": FileForm(save=dict(footer="pc yr kg")),                   # ... all of them unit names
+    "footer=2lines": FileForm(pos=1, save=dict(footer="written by the pipeline\npc yr kg")),
+    "footer=Units-block": FileForm(save=dict(footer=" Units\n pc\tyr\tkg")),
+    "footer=blank-line": FileForm(save=dict(footer="\nend")),
+    "header+footer": FileForm(save=dict(header=_H1, footer="end of catalogue")),
+    "header2+footer-units": FileForm(pos=2, save=dict(header=_H2, footer="pc yr kg")),
+    "footer,cols=1": FileForm(ncols=1, save=dict(footer="checked")),
+    "footer,cols=1,single": FileForm(ncols=1, single=True, save=dict(footer="pc")),
+    "footer,cols=2": FileForm(ncols=2, pos=1, save=dict(footer="3 rows")),
+    "footer,usecols(2,0)": FileForm(save=dict(footer="3 rows written"), load=dict(usecols=(2, 0))),
+    "footer,usecols(1,)": FileForm(pos=1, save=dict(footer="checked"), load=dict(usecols=(1,))),
+    # ---- delimiter / comment character / number format
+    "delimiter=comma": FileForm(save=dict(delimiter=","), load=dict(delimiter=",")),
+    "delimiter=space": FileForm(pos=1, save=dict(delimiter=" "), load=dict(delimiter=" ")),
+    "delimiter=semicolon,footer": FileForm(save=dict(delimiter=";", footer="a;b;c"), load=dict(delimiter=";")),
+    "comments=%": FileForm(save=dict(comments="%", header=_H1, footer="checked"), load=dict(comments="%")),
+    "comments=!": FileForm(pos=2, save=dict(comments="!"), load=dict(comments="!")),
+    "comments=hash-space": FileForm(save=dict(comments="# ", header=_H1, footer="pc yr kg")),   # numpy's own default for savetxt
+    "fmt=%.6f": FileForm(save=dict(fmt="%.6f")),
+    "fmt=%g,footer": FileForm(pos=1, save=dict(fmt="%g", footer="checked")),
+    "fmt=%10.5f": FileForm(save=dict(fmt="%10.5f")),                               # the docstring's example format (padded)
+    "fmt=list": FileForm(pos=2, save=dict(fmt=["%.18e", "%.3f", "%g"])),
+    # ---- how the arrays are handed over
+    "cols=1": FileForm(ncols=1), "cols=1,single": FileForm(ncols=1, single=True, save=dict(header=_H1)),
+    "cols=2": FileForm(ncols=2, pos=1),
+    "bare-column": FileForm(bare=1, save=dict(footer="checked")),
+    "rows=1,cols=1": FileForm(ncols=1, nrows=1, save=dict(footer="checked")),
+    "rows=1,cols=3": FileForm(nrows=1),
+    "rows=2,cols=3": FileForm(nrows=2, pos=1, save=dict(footer="2 rows")),
+}
+FILE_ROUTES = {f"text:file[{k}]": r_textfile(v) for k, v in FILE_FORMS.items()}
+FILE_ROUTES_QUICK = [f"text:file[{k}]" for k in (
+    "header=2lines", "header=3words", "header=Units-block", "footer=1word", "footer=3words", "footer=unit-names", "footer=2lines",
+    "footer=Units-block", "header+footer", "footer,cols=1,single", "footer,cols=2", "footer,usecols(2,0)", "delimiter=comma",
+    "delimiter=space", "comments=%", "comments=hash-space", "fmt=%g,footer", "fmt=%10.5f", "cols=1,single", "bare-column",
+    "rows=1,cols=1", "rows=1,cols=3")]
+
+
 ROUTES = {
+    **FILE_ROUTES,
     "text:savetxt.cols(2,0)": r_savetxt_cols((2, 0), 2), "text:savetxt.cols(2,0)b": r_savetxt_cols((2, 0), 0),
     "text:savetxt.cols(1,)": r_savetxt_cols((1,), 1), "text:savetxt.cols(0,2)": r_savetxt_cols((0, 2), 2, delimiter="\t", header=True),
-    "text:savetxt.cols(1,2,0)": r_savetxt_cols((1, 2, 0), 0), "text:savetxt.cols1": r_savetxt_cols(1, 1),
+    "text:savetxt.cols(1,2,0)": r_savetxt_cols((1, 2, 0), 0),
+    # (usecols=1, a bare int, is not a route: loadtxt documents `usecols : sequence` and refuses an int with TypeError)
     # object-graph serialisers: the sympy dimension expressions and the registry table are re-created
     "graph:pickle2.unit": r_pickle_unit(2), "graph:pickle3.unit": r_pickle_unit(3), "graph:pickle4.unit": r_pickle_unit(4),
     "graph:pickle5.unit": r_pickle_unit(5),
@@ -253,7 +420,7 @@ ROUTES = {
 # routes whose copy can carry solver terms: the follow-up runs on copy(q(x, original unit)) itself, payload included
 QROUTES = {"graph:deepcopy.symq": copy.deepcopy, "ref:copy.symq": copy.copy, "ref:qtycopy.symq": lambda q: q.copy()}
 PARTNER_RESTORED_ROUTES = {f"graph:pickle{HI}.qty", "graph:deepcopy.qty", f"graph:pickle{HI}.unit"}
-DEFAULT_ONLY_ROUTES = {"text:savetxt"} | {r for r in ROUTES if r.startswith("text:savetxt.cols")}  # loadtxt reads unit names in the default registry: custom symbols are outside
+DEFAULT_ONLY_ROUTES = {"text:savetxt"} | {r for r in ROUTES if r.startswith("text:savetxt.cols")} | set(FILE_ROUTES)  # loadtxt reads unit names in the default registry: custom symbols are outside
 
 # ---------------------------------------------------------------------------------------------------------------- follow-ups
 
@@ -521,7 +688,9 @@ class World:
         if not persist:
             self.persist = None
             return
+        ctx._c11_side = None
         self.persist = call(ROUTES[route], ctx, self.u, self.reg)
+        self.side = ctx._c11_side     # text-file routes: what happened to the columns next to the subject's (None: not such a route)
         self.partner_persist = None
         if partner is not None and pmode == "pr" and self.persist[0] == "ok":
             self.partner_persist = call(ROUTES[route], ctx, self.PU[partner], self.reg)
@@ -603,6 +772,8 @@ def make_case(subj, route, family, ops, partner, order, pmode="po"):
         ctx.require("persist/completes", w.persist[0] == "ok", error=repr(w.persist[1])[:200])
         if w.persist[0] != "ok":
             return
+        if w.side is not None:
+            ctx.require("persist/other-columns", not w.side, problems="; ".join(w.side)[:240])
         if w.partner_persist is not None:
             ctx.require("persist/partner-completes", w.partner_persist[0] == "ok", error=repr(w.partner_persist[1])[:200])
             if w.partner_persist[0] != "ok":
@@ -635,6 +806,239 @@ def _observe(ctx, op, b):
         ctx.observe(op, b[1])
 
 
+# ---------------------------------------------------------------------------------------------------------------- restoration histories
+
+class Cast:
+    """who is restored in one process: S (the subject), companions C and D (the same or another unit string in OTHER registries:
+    equal table + other unit system, same names + other scales, ...) and T, a second restoration of S's own original.
+    members: role -> (world, unit string); partner: unit string for the binary follow-ups (built in each member's own registry);
+    edit: symbol whose scale an `edit` step changes in the registry of a RESTORED member"""
+
+    def __init__(self, tag, S, C, D, partner, edit, kind="plain"):
+        self.tag, self.members, self.partner, self.edit, self.kind = tag, {"S": S, "C": C, "D": D, "T": S}, partner, edit, kind
+
+
+def _ser(name):
+    if name == "deepcopy":
+        return copy.deepcopy
+    proto = int(name[len("pickle"):])
+    return lambda obj: pickle.loads(pickle.dumps(obj, protocol=proto))
+
+
+def _item(ctx, u, what):
+    return u if what == "unit" else _qty(ctx, u, what == "arr")
+
+
+def _units_of(x):
+    return x if getattr(x, "is_Unit", False) else x.units
+
+
+# route name -> (serialiser, what is serialised); solo and container restorations use the same pair
+HROUTES = {
+    "graph:pickle2.qty": ("pickle2", "qty"), "graph:pickle3.qty": ("pickle3", "qty"), "graph:pickle4.qty": ("pickle4", "qty"),
+    "graph:pickle5.qty": ("pickle5", "qty"), "graph:pickle5.arr": ("pickle5", "arr"), "graph:pickle2.arr": ("pickle2", "arr"),
+    "graph:pickle5.unit": ("pickle5", "unit"), "graph:pickle2.unit": ("pickle2", "unit"),
+    "graph:deepcopy.qty": ("deepcopy", "qty"), "graph:deepcopy.arr": ("deepcopy", "arr"), "graph:deepcopy.unit": ("deepcopy", "unit"),
+}
+# histories: steps ("R", role) restore alone | ("T", roles, container) restore together in one container | ("drop", role) release the
+# restored object and collect garbage | ("use", role) run conversions on the restored object (fills its registry's caches) |
+# ("edit", role) change the registry of the RESTORED object (scale of cast.edit x 3, a new symbol xhn)
+HISTORIES = {
+    # two steps
+    "C>S": [("R", "C"), ("R", "S")], "S>C": [("R", "S"), ("R", "C")],
+    "[C,S]": [("T", "CS", "list")], "[S,C]": [("T", "SC", "list")], "{C,S}": [("T", "CS", "dict")], "(S,C)": [("T", "SC", "tuple")],
+    "S>T": [("R", "S"), ("R", "T")], "[S,T]": [("T", "ST", "list")],
+    # three steps
+    "C>D>S": [("R", "C"), ("R", "D"), ("R", "S")], "C>S>D": [("R", "C"), ("R", "S"), ("R", "D")], "S>C>D": [("R", "S"), ("R", "C"), ("R", "D")],
+    "[C,D,S]": [("T", "CDS", "list")], "{S,C,D}": [("T", "SCD", "dict")], "[C,S]>D": [("T", "CS", "list"), ("R", "D")],
+    "C>[D,S]": [("R", "C"), ("T", "DS", "nested")],
+    "C>use(C)>S": [("R", "C"), ("use", "C"), ("R", "S")], "S>use(S)>C": [("R", "S"), ("use", "S"), ("R", "C")],
+    "C>drop(C)>S": [("R", "C"), ("drop", "C"), ("R", "S")], "C>S>drop(C)": [("R", "C"), ("R", "S"), ("drop", "C")],
+    "C>edit(C)>S": [("R", "C"), ("edit", "C"), ("R", "S")], "S>C>edit(C)": [("R", "S"), ("R", "C"), ("edit", "C")],
+    "C>S>edit(C)": [("R", "C"), ("R", "S"), ("edit", "C")], "[S,C]>edit(C)": [("T", "SC", "list"), ("edit", "C")],
+    "S>T>edit(T)": [("R", "S"), ("R", "T"), ("edit", "T")], "T>edit(T)>S": [("R", "T"), ("edit", "T"), ("R", "S")],
+}
+HISTORIES_QUICK = ["C>S", "S>C", "[C,S]", "{C,S}", "S>T", "C>D>S", "[C,D,S]", "C>use(C)>S", "C>drop(C)>S", "C>edit(C)>S", "S>C>edit(C)",
+                   "S>T>edit(T)"]
+HIST_OPS = (["base:in_base", "base:in_cgs", "base:get_base_equivalent", "conv:to(str)", "conv:to(Unit)", "bin:add", "unit:describe"],
+            ["base:in_mks", "base:convert_to_base", "base:in_base(cgs)", "base:in_base(imperial)", "conv:in_units", "conv:from(Unit)", "bin:lt", "bin:mul",
+             "self:mul", "arith:sqrt", "unit:eq", "unit:mul", "unit:hash-consistent"])
+
+
+def _edits_registry(hist):
+    return any(st[0] == "edit" for st in HISTORIES[hist])
+
+
+def make_history_case(cast, route, hist, ops, order):
+    """several restorations in ONE path (nothing is cleared in between; every restored object stays referenced until it is
+    dropped explicitly): afterwards every restored member whose registry was not edited on purpose must behave like its original"""
+    ser_name, what = HROUTES[route]
+    steps = HISTORIES[hist]
+    roles = []
+    for st in steps:
+        for r in (st[1] if st[0] in ("R", "T") else ""):
+            if r not in roles:
+                roles.append(r)
+    prog = [(op,) + _op(op, cast.partner) for op in ops]
+
+    def originals(ctx):
+        regs, units, partners = {}, {}, {}
+        for r in roles:
+            src = "S" if r == "T" else r
+            if src not in regs:
+                world, ustr = cast.members[src]
+                regs[src] = WORLDS[world](ctx)
+                units[src] = _mk_unit(ctx, ustr, regs[src])
+                partners[src] = {cast.partner: _mk_unit(ctx, cast.partner, regs[src])}
+            regs[r], units[r], partners[r] = regs[src], units[src], partners[src]
+        return regs, units, partners
+
+    def run_history(ctx, units):
+        import gc
+        ser = _ser(ser_name)
+        live, edited, dropped = {}, set(), set()
+        for st in steps:
+            if st[0] == "R":
+                live[st[1]] = _units_of(ser(_item(ctx, units[st[1]], what)))
+            elif st[0] == "T":
+                rs, kind = list(st[1]), st[2]
+                items = [_item(ctx, units[r], what) for r in rs]
+                if kind == "dict":
+                    back = ser({r: it for r, it in zip(rs, items)})
+                    back = [back[r] for r in rs]
+                elif kind == "nested":
+                    back = ser({"outer": [items[0], {"inner": tuple(items[1:])}], "n": 1})
+                    back = [back["outer"][0]] + list(back["outer"][1]["inner"])
+                else:
+                    back = list(ser(items if kind == "list" else tuple(items)))
+                for r, b in zip(rs, back):
+                    live[r] = _units_of(b)
+            elif st[0] == "use":
+                q = ctx.mods["unyt"].unyt_quantity(2.0, live[st[1]])
+                for f in (q.in_base, q.in_cgs, lambda: q.to(cast.partner), lambda: q + q, lambda: str(q.units), lambda: q.units.registry.unit_system_id):
+                    call(f)
+                del q
+            elif st[0] == "drop":
+                del live[st[1]]
+                dropped.add(st[1])
+                gc.collect()
+            elif st[0] == "edit":
+                reg = live[st[1]].registry
+                # (the deep copy of a default-registry unit lives in a registry that refuses modify(): then only the new symbol)
+                call(reg.modify, cast.edit, 3.0 * float(reg.lut[cast.edit][0]))
+                reg.add("xhn", 7.0, ctx.mods["unyt"].dimensions.length)
+                edited.add(st[1])
+        return live, edited
+
+    def h(ctx):
+        _reset(ctx)
+        pays = {}
+        for _, _, dom in prog:
+            if dom not in pays:
+                pays[dom] = _payloads(ctx, dom)
+        refs = None
+        if order == "RO":
+            regs0, units0, partners0 = originals(ctx)
+            refs = {}
+            for r in roles:
+                for i, (op, fn, dom) in enumerate(prog):
+                    _clear(ctx)
+                    po = pays[dom][0]
+                    refs[r, i] = outcome(lambda: fn(Env(ctx, units0[r], regs0[r], partners0[r], po["x"], po["y"], po["x2"])))
+            _clear(ctx)
+        regs, units, partners = originals(ctx)
+        done = call(run_history, ctx, units)
+        ctx.require("history/completes", done[0] == "ok", error=repr(done[1])[:200])
+        if done[0] != "ok":
+            return
+        live, edited = done[1]
+        leds = {}
+        for r in roles:
+            if r not in live or r in edited:
+                continue
+            u, ru = units[r], live[r]
+            # ground: the restored unit and the unit system of its registry
+            ctx.require(f"{r}/unit/equal", bool(ru == u) and bool(u == ru) and str(ru.expr) == str(u.expr) and ru.base_value == u.base_value,
+                        original=show(_unit_key(u)), restored=show(_unit_key(ru)))
+            ctx.require(f"{r}/registry/unit_system", str(u.registry.unit_system) == str(ru.registry.unit_system),
+                        original=str(u.registry.unit_system)[:40], restored=str(ru.registry.unit_system)[:40])
+            if not edited:
+                la, lb = u.registry.lut, ru.registry.lut
+                ctx.require(f"{r}/registry/rows-equal", set(la) == set(lb) and all(la[k][0] == lb[k][0] and la[k][2] == lb[k][2] for k in la),
+                            changed=sorted(k for k in set(la) | set(lb) if k not in la or k not in lb or la[k][0] != lb[k][0])[:6])
+            for i, (op, fn, dom) in enumerate(prog):
+                po, pr = pays[dom]
+                led = leds.setdefault(op.split(":")[0], Ledger(op.split(":")[0]))
+                _clear(ctx)
+                eo = lambda: fn(Env(ctx, u, regs[r], partners[r], po["x"], po["y"], po["x2"]))
+                er = lambda: fn(Env(ctx, ru, regs[r], partners[r], pr["x"], pr["y"], pr["x2"]))
+                if order == "OR":
+                    a, b = outcome(eo), outcome(er)
+                    led.add(f"{r}:restored-vs-original", op, a, b)
+                else:
+                    b, a = outcome(er), outcome(eo)
+                    led.add(f"{r}:restored-vs-original", op, refs[r, i], b)
+                    led.add(f"{r}:original-after-restored", op, refs[r, i], a)
+                if r == "S":
+                    _observe(ctx, op, b)
+        for led in leds.values():
+            led.discharge(ctx)
+
+    return Case(f"C11/history:{cast.tag}/{route}/{hist}/{order}", h, bounds="symbolic: payloads; concrete: scales, persistence, history",
+                budget_s=300, max_paths=600, group="history", weight=len(ops) * len(roles) * 2)
+
+
+CASTS_QUICK = [
+    # equal tables, different unit systems
+    Cast("km@cgs|mks|imperial", ("cgs0", "km"), ("default", "km"), ("imp0", "km"), "m", "m"),
+    Cast("km@mks|cgs|imperial", ("default", "km"), ("cgs0", "km"), ("imp0", "km"), "mile", "m"),
+    Cast("kxlp@addcgs|add|addimp", ("regaddcgs", "kxlp"), ("regadd", "kxlp"), ("regaddimp", "kxlp"), "xla", "xlp"),
+    # same symbol names, different scales (regmod: xla = 4 m, pc = 5 m), and the cgs twin
+    Cast("xla@add|mod|addcgs", ("regadd", "xla"), ("regmod", "xla"), ("regaddcgs", "xla"), "pc", "xla"),
+]
+CASTS_THOROUGH_EXTRA = [
+    Cast("xla@regcgs|regxla|add", ("regcgs", "xla"), ("regxla", "xla"), ("regadd", "xla"), "cm", "xla"),
+    Cast("erg@cgs|J@mks|erg@imperial", ("cgs0", "erg"), ("default", "J"), ("imp0", "erg"), "eV", "erg"),
+    Cast("km_per_s@imperial|cgs|mks", ("imp0", "km/s"), ("cgs0", "km/s"), ("mks0", "km/s"), "mile/hr", "m"),
+    Cast("degC@cgs|mks|imperial", ("cgs0", "degC"), ("default", "degC"), ("imp0", "degC"), "K", "degC", kind="temp"),
+    Cast("C@cgs|mks|statC@cgs", ("cgs0", "C"), ("default", "C"), ("cgs0", "statC"), "A*s", "C", kind="em"),
+    Cast("pc@mod|add|mks", ("regmod", "pc"), ("regadd", "pc"), ("default", "pc"), "kpc", "pc"),
+]
+HROUTES_QUICK = [f"graph:pickle{HI}.qty", "graph:pickle2.qty", "graph:deepcopy.qty", f"graph:pickle{HI}.unit"]
+HROUTES_RO_QUICK = {f"graph:pickle{HI}.qty"}
+
+
+def history_cases(thorough):
+    """quick: 4 casts x {pickle HI qty, deepcopy qty, pickle HI unit} (+ pickle 2 qty for the first cast) x 12 histories.
+    thorough: the 4 casts x the 4 quick routes x all 25 histories + x the 7 other routes x the 12 quick histories; 6 more casts x
+    {pickle HI qty, deepcopy qty} x all histories; restored-first order (fresh-world reference) on {pickle HI qty, deepcopy qty} for the
+    histories that do not edit a registry"""
+    out = []
+    ro_routes = {f"graph:pickle{HI}.qty", "graph:deepcopy.qty"}
+    for ci, cast in enumerate(CASTS_QUICK + (CASTS_THOROUGH_EXTRA if thorough else [])):
+        core_cast = ci < len(CASTS_QUICK)
+        if not thorough:
+            plan = [(r, HISTORIES_QUICK) for r in HROUTES_QUICK if r != "graph:pickle2.qty" or ci == 0]
+        elif core_cast:
+            plan = [(r, list(HISTORIES) if r in HROUTES_QUICK else HISTORIES_QUICK) for r in HROUTES]
+        else:
+            plan = [(r, list(HISTORIES)) for r in sorted(ro_routes)]
+        ops = HIST_OPS[0] + (HIST_OPS[1] if thorough and core_cast else [])
+        for route, hists in plan:
+            for hist in hists:
+                # a Unit pickled on its own carries its registry OBJECT: two units of one original registry legitimately share the
+                # restored one, like the originals do - registry edits are followed on the quantity/array routes only
+                if _edits_registry(hist) and HROUTES[route][1] == "unit":
+                    continue
+                if thorough:
+                    both = route in ro_routes and not _edits_registry(hist)
+                else:
+                    both = route in HROUTES_RO_QUICK and hist in ("C>S", "[C,S]", "C>D>S")
+                for order in (("OR", "RO") if both else ("OR",)):
+                    out.append(make_history_case(cast, route, hist, ops, order))
+    return out
+
+
 # ---------------------------------------------------------------------------------------------------------------- registry contents, values
 
 def make_registry_case(subj, route):
@@ -646,6 +1050,8 @@ def make_registry_case(subj, route):
         if w.persist[0] != "ok":
             return
         r, u = w.persist[1], w.u
+        if w.side is not None:
+            ctx.require("persist/other-columns", not w.side, problems="; ".join(w.side)[:240])
         ctx.require("unit/expression", str(r.expr) == str(u.expr), got=str(r.expr))
         ctx.require("unit/dimensions", bool(r.dimensions == u.dimensions))
         ctx.require("unit/scale", r.base_value == u.base_value and r.base_offset == u.base_offset, got=(r.base_value, r.base_offset))
@@ -804,7 +1210,7 @@ SUBJECTS_THOROUGH_EXTRA = [
 # quick: one representative per persistence mechanism; both orders on three object-graph routes
 ROUTES_QUICK = ["graph:pickle2.qty", f"graph:pickle{HI}.qty", f"graph:pickle{HI}.unit", "graph:deepcopy.symq", "graph:unitcopy.deep",
                 "ref:copy.symq", "text:str", "text:json", "text:savetxt"]
-# multi-column text files read back with usecols (non-ascending, subset, scalar): for one table subject per kind (quick: two forms; thorough: all)
+# multi-column text files read back with usecols (non-ascending, subset): for one table subject per kind (quick: two forms; thorough: all)
 ROUTES_COLS_QUICK = ["text:savetxt.cols(2,0)", "text:savetxt.cols(1,)"]
 ROUTES_COLS = [r for r in ROUTES if r.startswith("text:savetxt.cols")]
 ROUTES_QUICK_BOTH_ORDERS = {f"graph:pickle{HI}.qty", f"graph:pickle{HI}.unit", "graph:deepcopy.symq"}
@@ -812,6 +1218,18 @@ ROUTES_QUICK_BOTH_ORDERS = {f"graph:pickle{HI}.qty", f"graph:pickle{HI}.unit", "
 ROUTES_EXTRA = [f"graph:pickle{HI}.qty", f"graph:pickle{HI}.unit", "graph:deepcopy.qty", "graph:unitcopy.deep", "ref:unitcopy", "text:str", "text:json"]
 # thorough, subjects of the quick tier
 ROUTES_CORE = ROUTES_QUICK + ["graph:deepcopy.qty", "graph:pickle.nested", "graph:deepcopy.unit", "ref:qtycopy.symq", "ref:copy.unit", "ref:unitcopy"]
+
+
+FILE_KINDS_QUICK = ("angle", "temp", "nodim", "compound")
+FILE_ROUTES_STRINGS = [f"text:file[{k}]" for k in ("footer=1word", "header+footer", "footer=unit-names", "comments=%", "delimiter=comma")]
+# the compact battery run after a text-file round trip (one case per subject x form): unit-system conversion, guards, conversion to
+# a partner, arithmetic with a partner, description
+MIX_COMMON = ["base:in_base", "base:in_cgs", "self:add", "self:mul", "arith:scale", "arith:diff", "bin:add", "bin:rsub", "bin:lt",
+              "conv:to(Unit)", "conv:to(str)", "unit:eq", "unit:describe"]
+
+
+def _mix_ops(kind):
+    return (["trig:sin"] if kind in ("angle", "nodim") else []) + (["exp:exp"] if kind in ("log", "nodim") else []) + MIX_COMMON
 
 
 def _routes_for(subj, names):
@@ -838,7 +1256,7 @@ def cases(tier, mods):
         if not thorough:
             routes = ROUTES_QUICK
         else:
-            routes = list(ROUTES) if s.id in all_ids else (ROUTES_CORE if s.id in quick_ids else ROUTES_EXTRA)
+            routes = [r for r in ROUTES if r not in FILE_ROUTES] if s.id in all_ids else (ROUTES_CORE if s.id in quick_ids else ROUTES_EXTRA)
         if s.id in all_ids and s.world == "default":
             routes = list(routes) + [r for r in (ROUTES_COLS if thorough else ROUTES_COLS_QUICK) if r not in routes]
         for route in _routes_for(s, routes):
@@ -858,6 +1276,21 @@ def cases(tier, mods):
                         out.append(make_case(s, route, f, oq + (ot if thorough else []), p, order))
                         if thorough and f == "bin" and s.kind in ("temp", "angle", "log") and route in PARTNER_RESTORED_ROUTES and s.id in quick_ids:
                             out.append(make_case(s, route, f, oq + ot, p, order, pmode="pr"))
+    # argument forms of the text-file round trip (header / footer / delimiter / comments / fmt / column and row counts / arrays
+    # argument): registry case + the compact battery, for one table subject per kind; the other table subjects (other unit STRINGS
+    # in the unit row) with the comment-line forms
+    for s in subjects:
+        if s.world != "default":
+            continue
+        if s.id in all_ids:
+            forms = list(FILE_ROUTES) if thorough else (FILE_ROUTES_QUICK if s.kind in FILE_KINDS_QUICK else FILE_ROUTES_STRINGS[:2])
+        else:
+            forms = FILE_ROUTES_STRINGS if thorough else FILE_ROUTES_STRINGS[:2]
+        for route in forms:
+            out.append(make_registry_case(s, route))
+            out.append(make_case(s, route, "mix", _mix_ops(s.kind), s.partners[0], "OR"))
+    # restoration histories: several registries restored in one process
+    out.extend(history_cases(thorough))
     # concrete value round trips
     vroutes = list(VALUE_ROUTES) + ["savetxt"]
     for aname in VALUE_ARRAYS:
